@@ -63,7 +63,9 @@ Bodies == {
   [SetV(TRUE, <<B(<<"a">>, IntV(1))>>) EXCEPT !.dang = <<"L:dangling">>],                              \* comment before the closing brace
   SetV(TRUE, <<B(<<"m">>, SetV(FALSE, <<B(<<"x">>, IntV(1))>>)), B(<<"m", "b">>, IntV(2)), B(<<"a">>, IntV(1))>>),       \* explicit + attrpath for one root
   SetV(TRUE, <<B(<<"f", "g", "x">>, IntV(1)), B(<<"f", "g", "y">>, IntV(2)), B(<<"a">>, IntV(1))>>),                    \* family sharing a 2-segment prefix
-  SetV(TRUE, <<B(<<"s">>, SetV(FALSE, <<B(<<"x">>, IntV(1))>>)), BC(<<"a">>, IntV(1), <<>>, "L:eol a", FALSE)>>)          \* inline nested set in a multi-line set
+  SetV(TRUE, <<B(<<"s">>, SetV(FALSE, <<B(<<"x">>, IntV(1))>>)), BC(<<"a">>, IntV(1), <<>>, "L:eol a", FALSE)>>),         \* inline nested set in a multi-line set
+  SetV(TRUE, <<B(<<"a">>, IntV(1)), B(<<"s", "a", "on">>, IntV(1)), B(<<"s", "b", "on">>, IntV(1))>>)                    \* twin leaves: same name and value under two parents
+  ,SetV(TRUE, <<B(<<"p", "q", "r", "t">>, IntV(1)), B(<<"p", "q", "e">>, IntV(2)), B(<<"a">>, IntV(1))>>)                  \* four segments, a deeper sub-path before a shallower sibling
 }
 \* bodies for the mapping API (C14): its keys are names as SPELLED in the file, so names that need quoting and
 \* inherited names (readable, but not deletable through the mapping) are left to C12 / C11
@@ -105,18 +107,36 @@ RelevantPaths(I) ==
       \cup { SubSeq(p, 1, Len(p) - 1) \o <<"n", "m">> : p \in {q \in defs : Len(q) > 1} } \* two fresh segments below an existing set
 NewValues == { IntV(7), SetV(FALSE, <<B(<<"k">>, IntV(7))>>), OpqV("[ 1 2 ]") }
 
+\* Malformed requests (C08: "empty or malformed path", "invalid value").  `bad' names the malformation; the
+\* concretizer spells it (harness/engines/edit.py BAD_PATH / BAD_VALUE); path and v say what the request was
+\* derived from.  They must be refused whatever the document looks like, and leave it as it was.
+BadPaths == {"path:empty", "path:empty_segment", "path:trailing_dot", "path:leading_dot", "path:unterminated_quote",
+             "path:dangling_escape", "path:not_identifier", "path:scope_in_segment"}
+BadValues == {"value:empty", "value:comment_only", "value:unclosed", "value:dangling_operator", "value:stray_close",
+              "value:two_statements"}
+BadOps(d) ==
+    LET sels == 0..(IF Len(d.layers) >= 1 THEN 2 ELSE 1)
+        base(s) == LET I == IF HasLayer(d, s) THEN ItemsAt(d, s) ELSE <<>>
+                       ex == {q \in DefSet(I) : Inherited(I, q) = {}} IN
+                   {<<"z">>} \cup (IF ex = {} THEN {} ELSE {CHOOSE q \in ex : TRUE}) IN
+    UNION { { [f |-> g, sel |-> s, path |-> p, v |-> IntV(7), bad |-> b] : g \in {"set", "rm"}, p \in base(s), b \in BadPaths }
+              \cup { [f |-> "set", sel |-> s, path |-> p, v |-> IntV(7), bad |-> b] : p \in base(s), b \in BadValues }
+          : s \in sels }
+
 Ops(d) ==
     LET sels == 0..(Len(d.layers) + 2) IN
     UNION { LET I == IF HasLayer(d, s) THEN ItemsAt(d, s) ELSE <<>> IN
             \* a name introduced by `inherit' is a reference into the enclosing scope: editing it is C11's business
-            { [f |-> "set", sel |-> s, path |-> p, v |-> v] : p \in {q \in RelevantPaths(I) : Inherited(I, q) = {}}, v \in NewValues }
-              \cup { [f |-> "rm", sel |-> s, path |-> p, v |-> IntV(0)] : p \in {q \in RelevantPaths(I) : Inherited(I, q) = {}} }
+            { [f |-> "set", sel |-> s, path |-> p, v |-> v, bad |-> ""] : p \in {q \in RelevantPaths(I) : Inherited(I, q) = {}}, v \in NewValues }
+              \cup { [f |-> "rm", sel |-> s, path |-> p, v |-> IntV(0), bad |-> ""] : p \in {q \in RelevantPaths(I) : Inherited(I, q) = {}} }
           : s \in sels }
+    \cup BadOps(d)
 
 -----------------------------------------------------------------------------
 (* The specified outcome of an operation.                                   *)
 Refusal(d, o) ==
-    IF d.shape # "ok" THEN "no_target"
+    IF o.bad # "" THEN "malformed"
+    ELSE IF d.shape # "ok" THEN "no_target"
     ELSE IF o.sel > 0 /\ o.sel > Len(d.layers) /\ ~(o.sel = 1 /\ d.layers = <<>> /\ o.f = "set") THEN "no_layer"
     ELSE LET I == IF HasLayer(d, o.sel) THEN ItemsAt(d, o.sel) ELSE <<>> IN
          IF o.f = "set" THEN SetRefusal(I, o.path) ELSE RmRefusal(I, o.path)
@@ -142,7 +162,7 @@ Init == doc \in Seeds /\ last = [f |-> "init"] /\ n = 0 /\ hist = [seed |-> doc,
 
 Do(o) == LET a == Apply(doc, o) IN
          /\ doc' = a.doc
-         /\ last' = [f |-> o.f, sel |-> o.sel, path |-> o.path, v |-> o.v, res |-> a.res, why |-> a.why, pre |-> doc]
+         /\ last' = [f |-> o.f, sel |-> o.sel, path |-> o.path, v |-> o.v, bad |-> o.bad, res |-> a.res, why |-> a.why, pre |-> doc]
          /\ n' = n + 1
          /\ hist' = [hist EXCEPT !.steps = Append(@, [op |-> o, res |-> a.res, why |-> a.why, post |-> a.doc])]
 
@@ -168,7 +188,7 @@ C05_Effect == Ok => IF last.f = "set" THEN SetEffect(PreI, PostI, last.path, las
 C05_Form == (Ok /\ last.f = "set") => SetForm(PreI, PostI, last.path) /\ FreshGoesLast(PreI, PostI, last.path)
 C05_NoDuplicate == (Ok /\ NoDuplicate(PreI)) => NoDuplicate(PostI)
 C05_RefusalReasons == (Stepped /\ last.res # "ok") =>
-                         last.why \in {"missing", "family", "non_set", "attrpath_root", "no_layer", "no_target"}
+                         last.why \in {"missing", "family", "non_set", "attrpath_root", "no_layer", "no_target", "malformed"}
 C08_Atomic == (Stepped /\ last.res # "ok") => doc = last.pre
 C08_ErrorClass == Stepped => last.res \in {"ok", "KeyError", "ValueError"}
 \* C09: the other layers, the body and the wrappers are untouched; creation adds one innermost layer; an
@@ -197,7 +217,7 @@ C19_Commute == n <= LawDepth => \A o1, o2 \in {o \in SetOps(doc) : Existing(doc,
                    Apply(Apply(doc, o1).doc, o2).doc = Apply(Apply(doc, o2).doc, o1).doc
 
 \* emission for direction A (ACTION_CONSTRAINT): one JSON line per generated transition
-Emit == PrintT(ToJson([pre |-> doc, op |-> [f |-> last'.f, sel |-> last'.sel, path |-> last'.path, v |-> last'.v],
+Emit == PrintT(ToJson([pre |-> doc, op |-> [f |-> last'.f, sel |-> last'.sel, path |-> last'.path, v |-> last'.v, bad |-> last'.bad],
                        res |-> last'.res, why |-> last'.why, post |-> doc', n |-> n']))
 \* emission of whole histories (INVARIANT in -simulate mode: printed for the behaviours TLC actually walks)
 EmitHist == (n = MaxDepth) => PrintT(ToJson(hist))
